@@ -42,6 +42,10 @@ type Config struct {
 	// id). This is delay-bounded scheduling; it keeps engine-level scenarios (many threads that
 	// block often) enumerable. When false, switches at blocking points are free (CHESS).
 	DelayBounded bool
+	// TolerateNondeterminism: scenarios on loopback TCP, whose timing the harness does not own, are
+	// skipped (with a note in the evidence) instead of failing the run when even the default
+	// schedule is not reproducible.
+	TolerateNondeterminism bool
 }
 
 // Violation of a scheduler-based check.
@@ -127,14 +131,31 @@ func Explore(cfg Config) (Stats, []Violation) {
 
 	// determinism gate: the empty prefix must give identical decisions and observations twice
 	{
-		s1, o1 := runScenario(&cfg, nil, true)
-		s2, o2 := runScenario(&cfg, nil, true)
-		if o1.End == "panic" {
-			panic("sched: scenario " + cfg.Name + " panics on the default schedule: " + o1.PanicMsg)
+		var o1 *Outcome
+		var s1 Scenario
+		ok := false
+		why := ""
+		for attempt := 0; attempt < 3 && !ok; attempt++ {
+			s1, o1 = runScenario(&cfg, nil, true)
+			cleanup(s1)
+			s2, o2 := runScenario(&cfg, nil, true)
+			cleanup(s2)
+			if o1.End == "panic" {
+				panic("sched: scenario " + cfg.Name + " panics on the default schedule: " + o1.PanicMsg)
+			}
+			if sameDecisions(o1.Decisions, o2.Decisions) && s1.Observe() == s2.Observe() && o1.End == o2.End {
+				ok = true
+			} else {
+				why = fmt.Sprintf("ends %s/%s, decisions %d/%d, observe %q / %q", o1.End, o2.End, len(o1.Decisions), len(o2.Decisions), s1.Observe(), s2.Observe())
+			}
 		}
-		if !sameDecisions(o1.Decisions, o2.Decisions) || s1.Observe() != s2.Observe() || o1.End != o2.End {
-			panic(fmt.Sprintf("sched: scenario %s is not deterministic under replay: ends %s/%s, decisions %d/%d, observe %q / %q",
-				cfg.Name, o1.End, o2.End, len(o1.Decisions), len(o2.Decisions), s1.Observe(), s2.Observe()))
+		if !ok {
+			if !cfg.TolerateNondeterminism {
+				panic(fmt.Sprintf("sched: scenario %s is not deterministic under replay: %s", cfg.Name, why))
+			}
+			st.Capped = "skipped: the default schedule is not reproducible in this environment (" + why + ")"
+			st.PerBound = append(st.PerBound, "not explored")
+			return st, nil
 		}
 		st.Threads = o1.Threads
 		if len(st.Samples) == 0 {
